@@ -585,6 +585,11 @@ class Interp:
             dec = self.ev(d, frame)
             if dec in (staticmethod, classmethod, property):
                 raise Unsupported("decorated nested def")
+            if isinstance(dec, functools.partial) and dec.func is functools.update_wrapper:
+                # @functools.wraps(f): metadata only.  (Running update_wrapper on an
+                # interpreted function would copy the wrapped IFunc's __dict__ - its
+                # code and closure - over the wrapper's.)
+                continue
             val = self.call(dec, [val])
         frame.store(st.name, val)
 
